@@ -19,7 +19,7 @@ func init() { Registry["C18"] = c18 }
 func opConsts(fn *ssa.Function) (map[string]int, bool) {
 	out := map[string]int{}
 	float := false
-	for _, b := range fn.Blocks {
+	for _, b := range blocksWithCallees(fn) {
 		for _, in := range b.Instrs {
 			if v, ok := in.(ssa.Value); ok {
 				if bt, ok := v.Type().Underlying().(*types.Basic); ok && bt.Info()&types.IsFloat != 0 {
